@@ -325,7 +325,7 @@ def _expr_equal(a: Any, b: Any) -> Optional[bool]:
     syms = sorted((x.free_symbols | y.free_symbols), key=lambda s: s.name)
     agree = 0
     tried = 0
-    for shift in range(6):
+    for shift in range(8):
         m = {}
         for i, s in enumerate(syms):
             p = PRIMES[(i + 3 * shift) % len(PRIMES)]
@@ -333,8 +333,14 @@ def _expr_equal(a: Any, b: Any) -> Optional[bool]:
                 m[s] = p
             else:
                 q = PRIMES[(i + shift + 5) % len(PRIMES)]
-                # sample both sides of 1 (piecewise forms such as min(x, 1/x))
-                m[s] = sp.Rational(p, q) if shift % 2 == 0 else sp.Rational(max(p, q) * 3, min(p, q))
+                # sample both sides of 1 (piecewise forms such as min(x, 1/x)) and, for the last two
+                # rounds, very small / very large magnitudes (clamps such as max(x, eps))
+                if shift == 6:
+                    m[s] = sp.Rational(p, q * 10**12)
+                elif shift == 7:
+                    m[s] = sp.Rational(p * 10**12, q)
+                else:
+                    m[s] = sp.Rational(p, q) if shift % 2 == 0 else sp.Rational(max(p, q) * 3, min(p, q))
         try:
             vx = sp.N(x.subs(m), 40)
             vy = sp.N(y.subs(m), 40)
@@ -458,3 +464,29 @@ def first_diff(a: Any, b: Any, path: str = "") -> str:
     if term_equal(a, b) is not True:
         return f"{path or 'root'}: {fmt(a)} vs {fmt(b)}"
     return ""
+
+
+def none_facts(guard: Tuple[Tuple[Any, bool], ...]) -> Dict[Any, Any]:
+    """Terms a guard asserts to be None:  (is(t, None), True)  or  (not(is(t, None)), False)."""
+    m: Dict[Any, Any] = {}
+    for c, pol in guard:
+        if isinstance(c, T) and c.op == "is" and len(c.args) == 2 and c.args[1] is None and pol:
+            m[c.args[0]] = None
+        if isinstance(c, T) and c.op == "not" and isinstance(c.args[0], T) and c.args[0].op == "is" and c.args[0].args[1] is None and not pol:
+            m[c.args[0].args[0]] = None
+    return m
+
+
+def replace_terms(t: Any, mapping: Dict[Any, Any]) -> Any:
+    if not mapping:
+        return t
+
+    def f(x: Any) -> Any:
+        try:
+            if x in mapping:
+                return mapping[x]
+        except TypeError:
+            pass
+        return x
+
+    return tmap(f, t)
